@@ -1811,9 +1811,9 @@ Proof.
     + destruct passive; [destruct nowait; exact H|]. cbn [fst].
       match goal with |- HI (@set _ _ _ _ _ ?s1) => apply (HI_FR s1); [|apply FR_same; reflexivity] end. apply HI_declare; auto.
   - destruct (alookup _ _ _); [|exact H]. destruct (seqb ex ""); [exact H|].
-    destruct (queue_found s q); [|exact H]. destruct (locked _ _); [exact H|]. destruct (bad_xmatch _); [exact H|]. cbn [fst].
+    destruct (queue_found s q); [|exact H]. destruct (locked _ _); [exact H|]. destruct (bad_xmatch _); [exact H|]. destruct (extype_eqb _ ExTopic && bad_pattern _)%bool; [exact H|]. cbn [fst].
     eapply HI_FR; [exact H|apply FR_same; reflexivity].
-  - destruct (alookup _ _ _); [|exact H]. destruct (queue_found s q); [|exact H]. destruct (locked _ _); [exact H|]. destruct (bad_xmatch _); [exact H|]. cbn [fst].
+  - destruct (alookup _ _ _); [|exact H]. destruct (queue_found s q); [|exact H]. destruct (locked _ _); [exact H|]. destruct (bad_xmatch _); [exact H|]. destruct (extype_eqb _ ExTopic && bad_pattern _)%bool; [exact H|]. cbn [fst].
     eapply HI_FR; [exact H|apply FR_same; reflexivity].
   - (* MQPurge *)
     destruct (queue_found s q) as [qu|] eqn:Eqf; [|exact H]. apply queue_found_get' in Eqf. destruct (locked _ _); [exact H|]. cbn [fst].
@@ -2213,10 +2213,10 @@ Proof.
       match goal with |- GR s (@set _ _ _ _ _ ?s1) => apply (GR_trans s s1); [|apply GR_FR; apply FR_same; reflexivity] end.
       apply GR_declare; reflexivity.
   - destruct (alookup _ _ _); [|apply GR_refl]. destruct (seqb ex ""); [apply GR_refl|].
-    destruct (queue_found s q); [|apply GR_refl]. destruct (locked _ _); [apply GR_refl|]. destruct (bad_xmatch _); [apply GR_refl|]. cbn [fst].
+    destruct (queue_found s q); [|apply GR_refl]. destruct (locked _ _); [apply GR_refl|]. destruct (bad_xmatch _); [apply GR_refl|]. destruct (extype_eqb _ ExTopic && bad_pattern _)%bool; [apply GR_refl|]. cbn [fst].
     apply GR_FR; apply FR_same; reflexivity.
   - destruct (alookup _ _ _); [|apply GR_refl]. destruct (queue_found s q); [|apply GR_refl]. destruct (locked _ _); [apply GR_refl|].
-    destruct (bad_xmatch _); [apply GR_refl|]. cbn [fst]. apply GR_FR; apply FR_same; reflexivity.
+    destruct (bad_xmatch _); [apply GR_refl|]. destruct (extype_eqb _ ExTopic && bad_pattern _)%bool; [apply GR_refl|]. cbn [fst]. apply GR_FR; apply FR_same; reflexivity.
   - destruct (queue_found s q) as [qu|] eqn:Eqf; [|apply GR_refl]. apply queue_found_get' in Eqf. destruct (locked _ _); [apply GR_refl|]. cbn [fst].
     apply GR_HB.
     match goal with |- HB s (set_queue ?s2 q ?qu') => apply (HB_trans s s2) end.
